@@ -108,7 +108,10 @@ func (e c06EnvVal) String() string {
 var (
 	c06Unset   = c06EnvVal{}
 	c06Secrets = []c06EnvVal{c06Unset, {true, ""}, {true, "  "}, {true, c06Secret}}
-	c06KeySets = []c06EnvVal{c06Unset, {true, ""}, {true, " , "}, {true, c06Key1}, {true, c06Key1 + "," + c06Key2}}
+	// the last three: entries that are nothing but quotes or nothing at all (an env file that blanks the variable with
+	// quotes, a trailing comma) configure no usable key; no request without a credential may pass because of them
+	c06KeySets = []c06EnvVal{c06Unset, {true, ""}, {true, " , "}, {true, c06Key1}, {true, c06Key1 + "," + c06Key2},
+		{true, `""`}, {true, c06Key1 + `,''`}, {true, c06Key1 + ",,"}}
 	c06Modes   = []string{"compiled", "interpreted"}
 )
 
@@ -884,7 +887,7 @@ func TestVerif_C06(t *testing.T) {
 	p := vk.Env()
 	stdout := os.Stdout
 	c06Quiet()
-	res := vk.NewResult("part 1: every (declaration in none/jwt/apikey/APIKEY/basic/jwt+role/ratelimit+jwt/apikey+ratelimit/jwt after a statement/jwt+ratelimit+db injection/jwt then apikey) x GLYPH_JWT_SECRET in unset/\"\"/blank/secret x GLYPH_API_KEYS in unset/\"\"/\" , \"/k1/k1,k2 x compiled/interpreted server assembled by setupRoutes+createHandler, x every request = (GET /r, POST /r, GET /open) x Authorization shape x X-API-Key shape x forwarding-header shape, sent as raw HTTP text through net/http's ReadRequest; a case is non-trivial if it addresses a route that declares auth; plus the same header product on pkg/apikey's middleware. Part 2: every history up to the depth bound over {bad, good, missing credential from A, good from B, bad from A with forged X-Forwarded-For naming B, burst of 4 bad from A, advance 30 s / 1 min / 2 min / 16 min (which drives the cleanup ticker)} on the jwt middleware chain the CLI builds, no deduplication (tracker state is closure-private). Part 3: every schedule with at most the stated number of preemptions of concurrent requests from one address at the lock-out threshold")
+	res := vk.NewResult("part 1: every (declaration in none/jwt/apikey/APIKEY/basic/jwt+role/ratelimit+jwt/apikey+ratelimit/jwt after a statement/jwt+ratelimit+db injection/jwt then apikey) x GLYPH_JWT_SECRET in unset/\"\"/blank/secret x GLYPH_API_KEYS in unset/\"\"/\" , \"/k1/k1,k2/two quote characters/k1 and a quote-only entry/k1 and empty entries x compiled/interpreted server assembled by setupRoutes+createHandler, x every request = (GET /r, POST /r, GET /open) x Authorization shape x X-API-Key shape x forwarding-header shape, sent as raw HTTP text through net/http's ReadRequest; a case is non-trivial if it addresses a route that declares auth; plus the same header product on pkg/apikey's middleware. Part 2: every history up to the depth bound over {bad, good, missing credential from A, good from B, bad from A with forged X-Forwarded-For naming B, burst of 4 bad from A, advance 30 s / 1 min / 2 min / 16 min (which drives the cleanup ticker)} on the jwt middleware chain the CLI builds, no deduplication (tracker state is closure-private). Part 3: every schedule with at most the stated number of preemptions of concurrent requests from one address at the lock-out threshold")
 	if p.Replay != "" {
 		var rp c06Replay
 		if err := vk.LoadReplay(p.Replay, &rp); err != nil {
